@@ -61,6 +61,9 @@ def gen(ctx):
             o = h["ops"][0]
             fam = "gate" if h["gate"] == "stale" else "race" if (h["gate"] or h["delays"]) else \
                   "loss" if any(x["k"] in ("destroy", "killinit") for x in h["ops"]) else "plain"
+            if h["gate"] == "nested":
+                keep.append(h)          # one operation failing in two places: always
+                continue
             if fam == "plain" and len(h["ops"]) == 4 and (o["k"] != "exec" or (o["sa"], o["cb"], o["cancel"]) in core):
                 keep.append(h)
                 continue
